@@ -27,9 +27,9 @@ CHECKS["C12"] = dict(
 
 CHECKS["C16"] = dict(
     engine="XH",
-    technique="symbolic execution (CrossHair + z3): solver-driven exploration of every TOML value shape through the real from_dict/validators, and of every fault choice through the real error funnels",
+    technique="symbolic execution (CrossHair + z3): solver-driven exploration of every TOML value shape through the real from_dict/validators, and of every fault choice through the real error funnels; symbolic bytes through the real decoder (CrossHair's UTF-8 codec model)",
     text="CrossHair explores all paths of (a) the real ReuseTOML.from_dict with each key in turn taking every TOML type (nesting <= 2), (b) the real ClickObj.project with Project.from_directory raising each documented exception, (c) the real ProjectReport/ProjectSubsetReport.generate with FileReport.generate raising any of 11 exception classes per file; the postcondition is 'returns or raises a parse error naming the file' / 'click.UsageError' / 'a read-error entry and the run continues'. Counterexamples are replayed through ReuseTOML.from_toml on the tomlkit serialisation.",
-    note="After the solver has chosen a shape the document is concrete, so the solver's part is the exhaustive, feasibility-checked exploration of the shape space (stated bound: one malformed key at a time, nesting <= 2). Outside: third-party parsers on raw bytes. The two defects this check found (annotations not an array of tables; unhashable array item) are repaired in /repo (fix: commit); no carve-out remains.",
+    note="Extended to file content: (d) the real add_header_to_file chain on 6 content kinds x 6 unparseable expressions x 4 file types x options with open() either yielding the text or raising UnicodeDecodeError, (e) the licence-text section of the real bill_of_materials with the same fault point, (f) the real decoded_text_from_binary on every byte string up to 3 (quick) / 4 (thorough) bytes, symbolic, result must be encodable again. Five defects found by this check are repaired in /repo (fix: 453f000, 10c4144, 65bb852, 24a0118). After the solver has chosen a shape the document is concrete, so the solver's part is the exhaustive, feasibility-checked exploration of the shape space (stated bound: one malformed key at a time, nesting <= 2). Outside: third-party parsers on raw bytes. The two defects this check found (annotations not an array of tables; unhashable array item) are repaired in /repo (fix: commit); no carve-out remains.",
 )
 
 CHECKS["C04"] = dict(
